@@ -152,6 +152,27 @@ CLAIMS["C18"] = {
     "technique": "HIR literal-pattern tables of three functions cross-checked (S <= E <= I) + push-sequence check per match arm",
 }
 
+
+CLAIMS["C15"] = {
+    "text": "Decides that feature switches select equivalent code: both arms of every cfg!(feature) conditional are equal under the reviewed "
+            "checked/unchecked idiom table (TWIN); every function has the same normalised HIR in the default, prohibit-unsafe, index-positions, "
+            "both, and no-std+alloc configurations apart from two named position accessors (XCONFIG) - and a configuration that fails to type-check "
+            "is itself a violation; IndexPosition and RefPosition operators normalise to the same ADD/SUB/DIFF forms (POSSIB); no HashMap iteration "
+            "order leaks (HASHITER); every cfg site is classified (CFGINV); decoder twins also agree under index positions (SIBPOS) and the utf16 "
+            "literal lowering is direction-aware (LBSEQ).",
+    "note": COMMON_NOTE + "Trusted, not decided: the one non-idiom twin ByteBitmap::find_in (linear scan vs align_to chunks). Not decided: equivalence of the two "
+            "literal lowerings (utf16 vs byte), which are different algorithms.",
+    "technique": "normalised-HIR tree comparison across feature configurations with a reviewed idiom table (each configuration type-checked by the driver)",
+}
+CLAIMS["C20"] = {
+    "text": "Decides, in the nightly `pattern` configuration that the baseline never builds, the adjacency clause of the Searcher contract on every "
+            "path of next/next_back: each emitted step starts at the cursor and the cursor stored equals the step's end (TILING, symbolic path "
+            "summaries); the regex is only run through find_from on the whole haystack at the cursor. The empty-match advance (cursor moved past the "
+            "step without emitting one) is reported as the two known findings quoted in the property.",
+    "note": COMMON_NOTE + "Not decided: that next_back visits the same matches as find_iter, and char-boundary-ness of match bounds (inherits C06/C09).",
+    "technique": "symbolic path summaries of the searcher step functions (cursor value vs. emitted step bounds) under cargo +nightly --features pattern",
+}
+
 PENDING = "rules for this property are designed (DESIGN.md §3/§4) but not built yet; nothing is claimed until they exist"
 
 NOT_APPLICABLE = {("C%02d" % i): PENDING for i in range(1, 21)}
